@@ -588,7 +588,7 @@ def unguarded_table_lookups(prog, pred):
     return nfun, out
 
 
-def signed_formats(prog, pred):
+def signed_formats(prog, pred, pad=False):
     """struct format strings with a signed code in the selected functions -> (count, [(FuncInfo, node, fmt, codes)])."""
     nfmt = 0
     out = []
@@ -597,7 +597,8 @@ def signed_formats(prog, pred):
             continue
         for n in ast.walk(fn.node):
             if isinstance(n, ast.Call) and src_of(n.func) in ('struct.pack', 'struct.unpack', 'struct.unpack_from',
-                                                             'pack', 'unpack') and n.args:
+                                                             'struct.iter_unpack', 'struct.pack_into', 'struct.Struct',
+                                                             'pack', 'unpack', 'iter_unpack') and n.args:
                 fmt = n.args[0]
                 txt = None
                 if isinstance(fmt, ast.Constant) and isinstance(fmt.value, str):
@@ -608,18 +609,24 @@ def signed_formats(prog, pred):
                 if txt is None:
                     continue
                 nfmt += 1
-                signed = [c for c in txt if c in 'bhilq']
+                signed = [c for c in txt if c in ('bhilqx' if pad else 'bhilq')]
                 if signed:
                     out.append((fn, n, txt, ''.join(signed)))
     return nfmt, out
 
 
-def report_signed_formats(prog, rep, rule, pred, floor):
-    nfmt, sites = signed_formats(prog, pred)
+def report_signed_formats(prog, rep, rule, pred, floor, pad=False):
+    nfmt, sites = signed_formats(prog, pred, pad=pad)
     if not [c for c in '!Bq' if c in 'bhilq']:
         raise AnalysisError('signed-format scanner broken')
     for fn, n, txt, codes in sites:
         key = 'signed:%s:%s' % (fn.qualname, txt)
+        if set(codes) == {'x'}:
+            rep.bad(rule, key, file=fn.file, line=n.lineno, func=fn.qualname,
+                    found='format %r contains the pad code x: on decoding the octet under it is skipped, on encoding it is '
+                          'written as zero - a value octet there is lost' % txt, expected='every octet of the field read / '
+                          'written', key=key)
+            continue
         rep.bad(rule, key, file=fn.file, line=n.lineno, func=fn.qualname,
                 found='format %r uses the signed code(s) %s: a wire field with its top bit set decodes as a negative '
                       'number (or cannot be packed)' % (txt, codes), expected='unsigned wire fields', key=key)
@@ -704,4 +711,54 @@ def const_key_lookups(prog, rep, rule, pred, floor):
     if not bad:
         rep.ok(rule, 'table-entries', found='%d constant-key lookups in %d functions, all present' % (n, nf))
     rep.floor(rule, 'constant-key table lookups', n, floor)
+    return n
+
+
+
+_FMT_SIZE = {'B': 1, 'b': 1, 'H': 2, 'h': 2, 'I': 4, 'i': 4, 'L': 4, 'l': 4, 'Q': 8, 'q': 8}
+
+
+def recombination_shifts(prog, rep, rule, pred, floor=0):
+    """`(hi << k) | lo` / `(hi << k) + lo` where lo was unpacked with a struct code of n octets: k must be 8 * n
+    (a value split over two unpacked fields is put together at the width of its low part)."""
+    n = 0
+    bad = []
+    for f in prog.all_functions():
+        if not pred(f):
+            continue
+        width = {}
+        for a in ast.walk(f.node):
+            if isinstance(a, ast.Assign) and isinstance(a.value, ast.Call) and \
+                    src_of(a.value.func) in ('struct.unpack', 'struct.unpack_from') and a.value.args and \
+                    isinstance(a.value.args[0], ast.Constant) and isinstance(a.value.args[0].value, str) and \
+                    isinstance(a.targets[0], (ast.Tuple, ast.List)):
+                codes = [c for c in a.value.args[0].value if c in _FMT_SIZE or c == 'x']
+                codes = [c for c in codes if c != 'x']
+                if len(codes) == len(a.targets[0].elts):
+                    for t, c in zip(a.targets[0].elts, codes):
+                        if isinstance(t, ast.Name):
+                            width[t.id] = _FMT_SIZE[c]
+        if not width:
+            continue
+        for b in ast.walk(f.node):
+            if isinstance(b, ast.BinOp) and isinstance(b.op, (ast.BitOr, ast.Add)):
+                for hi, lo in ((b.left, b.right), (b.right, b.left)):
+                    if isinstance(hi, ast.BinOp) and isinstance(hi.op, ast.LShift) and isinstance(lo, ast.Name) and \
+                            lo.id in width and isinstance(hi.left, ast.Name) and hi.left.id in width:
+                        k = prog.try_fold(hi.right, f.module, f.cls)
+                        if not isinstance(k, int):
+                            continue
+                        n += 1
+                        if k != 8 * width[lo.id]:
+                            bad.append((f, b, k, lo.id, width[lo.id]))
+    for f, b, k, lo, w in bad:
+        key = 'recombine:%s:%s' % (f.qualname, src_of(b)[:50])
+        rep.bad(rule, key, file=f.file, line=b.lineno, func=f.qualname,
+                found='%s: the low part %s was unpacked as %d octet(s) but the high part is shifted by %d bits' % (
+                    src_of(b), lo, w, k), expected='shift by %d' % (8 * w), key=key)
+    if not bad:
+        rep.ok(rule, 'recombination-shifts', found='%d split field(s) recombined at the width of the low part' % n,
+               nontrivial=bool(n))
+    if floor:
+        rep.floor(rule, 'recombined split fields', n, floor)
     return n
